@@ -40,6 +40,9 @@ func c15Initial(hier, clock int) *hstate {
 		d.Certs = []*refcfg.CertCfg{mk("root", ""), mk("sub", "root"), mk("leaf", "sub")}
 	} else {
 		d.Certs = []*refcfg.CertCfg{mk("root", ""), mk("sub", "root"), mk("leaf", "sub"), mk("sub2", "root")}
+		// one entity under an explicit alias that differs from its file stem, one in a dotted sub-directory
+		d.Certs[3].Path, d.Certs[3].Alias = "branch/second-sub.yaml", "sub2"
+		d.Certs[2].Path = "ee.d/leaf.yml"
 	}
 	d.Profiles = []*refcfg.ProfileCfg{{Path: "prof.yaml", Name: "p", Exts: []refcfg.Ext{{Kind: refcfg.KSKI, SKI: refcfg.S("hash")}, {Kind: refcfg.KAKI, AKIHash: true}, {Kind: refcfg.KEKU, EKU: refcfg.Strs("clientAuth")}}}}
 	w := simfs.New(clock)
@@ -303,7 +306,7 @@ func init() {
 	register(&engine.Check{
 		ID:          "C15",
 		Level:       "fault_enumeration",
-		Rule:        "2 hierarchies (root->sub->leaf; root->{sub->leaf, sub2}, all under a key-id profile) x 7 histories (initial run; settled + edit root / sub / leaf subject; settled + strip root key; settled + generate-all; settled + profile edit) x 2 clock modes: in the faulted run every write k (all writes of the run) x outcome {error without write, error after a prefix, process death after a prefix, death right after the complete write}; prefix lengths = each PEM-block boundary (hash line, certificate, key) -1/0/+1 and every 32nd byte (quick) / every byte offset for the 3-tier chain with per-write ticks and every 8th byte for the other hierarchy/clock combinations (thorough) of the ~1.2 kB file; two-fault sequences (any fault of the block-boundary alphabet at any write of the recovery run, then a clean run). Oracle: an injected write error makes the run return an error; the next default run succeeds without panic; afterwards every entity has exactly one certificate and key, every certificate verifies under its issuer with byte-equal DN, matches its configuration (reference translation) and its key; a further run is a no-op. non-trivial = fault points reached (distinct by construction)",
+		Rule:        "2 hierarchies (root->sub->leaf; root->{sub->leaf, sub2} with sub2 under an explicit alias in a sub-directory and leaf in a dotted sub-directory, all under a key-id profile) x 7 histories (initial run; settled + edit root / sub / leaf subject; settled + strip root key; settled + generate-all; settled + profile edit) x 2 clock modes: in the faulted run every write k (all writes of the run) x outcome {error without write, error after a prefix, process death after a prefix, death right after the complete write}; prefix lengths = each PEM-block boundary (hash line, certificate, key) -1/0/+1 and every 32nd byte (quick) / every byte offset for the 3-tier chain with per-write ticks and every 8th byte for the other hierarchy/clock combinations (thorough) of the ~1.2 kB file; two-fault sequences (any fault of the block-boundary alphabet at any write of the recovery run, then a clean run). Oracle: an injected write error makes the run return an error; the next default run succeeds without panic; afterwards every entity has exactly one certificate and key, every certificate verifies under its issuer with byte-equal DN, matches its configuration (reference translation) and its key; a further run is a no-op. non-trivial = fault points reached (distinct by construction)",
 		Bound:       map[string]string{"crash model": "prefixes of a single in-place write (open+truncate+write, no fsync/rename)", "fault sequences": "<=2"},
 		Assumptions: []string{"post-power-loss block reordering and concurrent gopki processes are not modelled"},
 		Budget:      budgets(quickBudget, thoroughBudget),
